@@ -156,7 +156,8 @@ fn macro_j(m: &Macro, sp: Span) -> J {
     let name = path_str(&m.path);
     let mut v = vec![("name", s(name.clone())), ("tokens", s(m.tokens.to_string()))];
     // try: comma separated expressions
-    if let Ok(args) = m.parse_body_with(Punctuated::<Expr, Token![,]>::parse_terminated) {
+    if name != "matches" && m.parse_body_with(Punctuated::<Expr, Token![,]>::parse_terminated).is_ok() {
+        let args = m.parse_body_with(Punctuated::<Expr, Token![,]>::parse_terminated).unwrap();
         v.push(("args", J::A(args.iter().map(expr_j).collect())));
     } else if name == "matches" {
         // matches!(expr, pattern [if guard])
